@@ -40,6 +40,8 @@ package db
 //@   props C01 C08 C09 C10 C11 C12 C18
 //@   requires recv != nil
 //@   ensures err != nil ==> result == nil
+//@   ensures result == nil || fresh(result)
+//@   ensures forall i int :: 0 <= i && i < len(result) ==> result[i] != nil && fresh(result[i]) && fresh(result[i].Key) && fresh(result[i].Value)
 //@   ensures forall i int :: 0 <= i && i < len(result) ==> result[i] != nil && len(result[i].Value) > 0 && len(result[i].Key) >= len(p0)
 //@   ensures forall i int :: 0 <= i && i < len(result) ==> bytesEq(result[i].Key, 0, p0, 0, len(p0))
 //@   ensures forall i int :: 0 <= i && i < len(result) ==> has(bmap(recv), strOf(result[i].Key)) && bmap(recv)[strOf(result[i].Key)] == strOf(result[i].Value)
